@@ -2,7 +2,7 @@
 use skv_verif::findings::Findings;
 use skv_verif::runner::{finish, replay_one, run_prop, run_replays, PropDef, Report};
 use skv_verif::util::seed_from_env;
-use skv_verif::{case::Case, props};
+use skv_verif::props;
 use std::path::PathBuf;
 use std::time::Instant;
 
@@ -15,7 +15,10 @@ fn cases_for(tier: &str, quick: u64, thorough: u64) -> u64 {
     }
 }
 
-fn run_model(defs: Vec<(PropDef<Case>, u64, u64)>, tier: &str, replay: Option<PathBuf>) -> i32 {
+fn run_model<C>(defs: Vec<(PropDef<C>, u64, u64)>, tier: &str, replay: Option<PathBuf>) -> i32
+where
+    C: Clone + std::fmt::Debug + serde::Serialize + serde::de::DeserializeOwned + Send + 'static,
+{
     let findings = Findings::load();
     if let Some(p) = replay {
         return replay_one(&defs[0].0, &p, &findings);
@@ -46,6 +49,7 @@ fn main() {
     };
     let tier = if tier == "thorough" { "thorough" } else { "quick" };
     let code = match id.as_str() {
+        "C18" => run_model(vec![(skv_verif::fmt_bptree::c18(60, false), 4000, 60000), (skv_verif::fmt_bptree::c18(300, false), 300, 6000), (skv_verif::fmt_bptree::c18(60, true), 400, 6000)], tier, replay),
         "C01" => run_model(vec![(props::c01(), 20000, 400000)], tier, replay),
         "C06" => run_model(vec![(props::c06(), 6000, 120000)], tier, replay),
         "C07" => run_model(vec![(props::c07(false), 8000, 150000), (props::c07(true), 800, 15000)], tier, replay),
